@@ -271,6 +271,17 @@ impl Check for C01 {
     fn num_cases(&self, tier: Tier) -> u64 {
         tier.pick(3000, 60000)
     }
+    fn builtin_corpus(&self) -> Vec<Case> {
+        // element counts beyond 2^16 (see gen::wide_cfgs), three reports each incl. extreme buckets
+        wide_cfgs()
+            .into_iter()
+            .enumerate()
+            .map(|(i, cfg)| {
+                let reports = (0..3u64).map(|k| Report { meas: meas_from(&cfg.inst, [2u8, 7, 1][k as usize], 900 + 31 * i as u64 + k), nonce_seed: 40 + k, rand_seed: 50 + i as u64 * 3 + k }).collect();
+                Case { cfg, ctx: Hex(b"wide".to_vec()), key_seed: 77 + i as u64, reports }
+            })
+            .collect()
+    }
     fn run(&self, case: &Case) -> Outcome {
         let mut obs = Obs::new();
         classify(case, &mut obs);
